@@ -76,6 +76,9 @@ func init() {
 			{ID: "R12r", Floor: 1, Doc: "a session has no in-memory state that a resumed session cannot rebuild from the file: no new written field on the stores (= R08s)", Run: ruleR08s},
 			{ID: "R12s", Floor: 1, Doc: "two headers match only when they list the same number of roots: every non-false answer of CarHeader.Matches is behind len(h.Roots) == len(other.Roots)", Run: ruleR12s},
 			{ID: "R12t", Floor: 1, Doc: "a file that is not a resumable archive is refused untouched: no errors.Is(err, io.EOF) decides how to open it (= R02r)", Run: ruleR02r},
+			{ID: "R12u", Floor: 1, Doc: "the version of a file being resumed is read from the file the store was opened on, not through a window sized by an offset of the other format", Run: ruleR12u},
+			{ID: "R12v", Floor: 2, Doc: "a new file holds no CARv2 header before Finalize: the header slot is written where the pinned tree writes it (= R06h)", Run: ruleR06h},
+			{ID: "R12w", Floor: 1, Doc: "different roots are different also when a root is listed twice: CarHeader.Matches keeps state per root (marks, counts or sorts) instead of testing containment one way", Run: ruleR12w},
 		},
 	})
 	register(PropertyDef{
@@ -104,6 +107,7 @@ func init() {
 			{ID: "R16o", Floor: 2, Doc: "a failed store.Finalize is what the finalizers return: from its non-nil outcome every return carries that error (as it is or wrapped), not the outcome of a clean-up write", Run: ruleR16o},
 			{ID: "R16p", Floor: 2, Doc: "a failed put resizes nothing: only Resume truncates a session's file (= R06k)", Run: ruleR06k},
 			{ID: "R16q", Floor: 1, Doc: "Get answers from the archive: no read method starts to keep blocks of its own (= R08o)", Run: ruleR08o},
+			{ID: "R16r", Floor: 2, Doc: "a torn section left by a failed write is refused on reopen: the rescan probes the last byte of every section through the payload reader (= R06c)", Run: ruleR06c},
 		},
 	})
 }
@@ -721,22 +725,40 @@ func ruleR12b(c *Ctx, r *Report) {
 		if len(errOK) == 0 || anyReach(reach(fn, nil, edgeSet(errOK))) {
 			bad = "success reachable although ReadVersion failed"
 		}
-		// version 1 needs writeAsV1 true; version 2 needs false
-		for _, e := range eq1 {
-			if anyReach(reachFromEdge(fn, e, edgeSet(eq2, boolParamEdges(fn, v1p, true)))) {
-				bad = "a version-1 file is accepted without v1 mode"
+		// version 1 needs writeAsV1 true; version 2 needs false. The mode may be tested after the
+		// version (`case version == 1 && writeAsV1`) or before it (`if writeAsV1 { return version == 1 }`):
+		// an outcome is possible in a mode when its test can be reached in that mode and success
+		// can be reached from it in that mode.
+		possible := func(e Edge, cut EdgeSet) bool {
+			at := e.From
+			if e.Via != nil {
+				at = e.Via
 			}
-			if !anyReach(reachFromEdge(fn, e, edgeSet(eq2, boolParamEdges(fn, v1p, false)))) {
-				bad = "a version-1 file is rejected even in v1 mode"
+			if !reach(fn, nil, cut)[at] {
+				return false
 			}
+			return anyReach(reachFromEdge(fn, e, cut))
 		}
-		for _, e := range eq2 {
-			if anyReach(reachFromEdge(fn, e, edgeSet(eq1, boolParamEdges(fn, v1p, false)))) {
-				bad = "a version-2 file is accepted in v1 mode"
+		any := func(es []Edge, cut EdgeSet) bool {
+			for _, e := range es {
+				if possible(e, cut) {
+					return true
+				}
 			}
-			if !anyReach(reachFromEdge(fn, e, edgeSet(eq1, boolParamEdges(fn, v1p, true)))) {
-				bad = "a version-2 file is rejected even in v2 mode"
-			}
+			return false
+		}
+		v1mode, v2mode := boolParamEdges(fn, v1p, false), boolParamEdges(fn, v1p, true) // the edges cut in that mode
+		if any(eq1, edgeSet(eq2, v2mode)) {
+			bad = "a version-1 file is accepted without v1 mode"
+		}
+		if !any(eq1, edgeSet(eq2, v1mode)) {
+			bad = "a version-1 file is rejected even in v1 mode"
+		}
+		if any(eq2, edgeSet(eq1, v1mode)) {
+			bad = "a version-2 file is accepted in v1 mode"
+		}
+		if !any(eq2, edgeSet(eq1, v2mode)) {
+			bad = "a version-2 file is rejected even in v2 mode"
 		}
 	}
 	r.Check(bad == "", key, c.Pos(fn.Pos()), "success exactly for (1, v1 mode) and (2, v2 mode)", bad)
@@ -746,7 +768,7 @@ func ruleR12d(c *Ctx, r *Report) {
 	key := "matches-whole-cid@v2/internal/carv1.CarHeader.Matches"
 	nEq := 0
 	bad := ""
-	for _, nm := range []string{"Matches", "containsRoot"} {
+	for _, nm := range []string{"Matches", "matchUnmatchedRoot", "containsRoot"} {
 		fn, err := c.Func(pkgV1, "CarHeader", nm)
 		if err != nil {
 			if nm == "Matches" {
@@ -771,7 +793,7 @@ func ruleR12d(c *Ctx, r *Report) {
 		})
 	}
 	if bad == "" && nEq == 0 {
-		bad = "no whole-CID comparison (Cid.Equals / ==) found in Matches/containsRoot"
+		bad = "no whole-CID comparison (Cid.Equals / ==) found in Matches and its helper"
 	}
 	r.Check(bad == "", key, "-", fmt.Sprintf("%d whole-CID comparison(s), no partial (Hash/Prefix) comparison", nEq), bad)
 }
